@@ -389,6 +389,13 @@ def run(chk):
     report.include_rules(chk, r5, rules_C11, ("C11.R2", "C11.R3"), "the router accepts every key Client accepts and answers from the key alone (it hashes '<node>-<key>' as given, str or bytes, and takes the argmax): it cannot fail or misroute for keys a plain Client serves")
     report.include_rules(chk, r5, rules_C12, ("C12.R3", "C12.R4"), "the multi-key operations hand every key to the server's client through its own multi-key method and return what it answered (no special-cased path that interprets values itself)")
     report.include_rules(chk, r5, rules_C13, ("C13.R1",), "a server that answered (or failed with something other than an OSError) is not marked as failing, so later calls are still sent to it like a plain Client would")
+    # what the wrappers add around the inner Client must not show on the wire or in the outcome: the pool discards a
+    # failed connection by closing it and nothing else (no farewell command a plain Client never sends), and the inner
+    # Client's connection set-up leaves no half-initialised socket behind that a wrapper-less Client would go on using
+    from . import rules_C09, rules_C06
+
+    report.include_rules(chk, r5, rules_C09, ("C09.R3",), "discarding a pooled connection closes it and sends nothing")
+    report.include_rules(chk, r5, rules_C06, ("C06.R1",), "a connection attempt that fails leaves no socket on the client: the next call behaves the same through every wrapper")
     chk.assume("the inner object of the wrappers is a Client (client_class); user-supplied client classes are outside the property")
 
 
